@@ -147,6 +147,7 @@ pub fn process(ctx: &mut Ctx, text: &str) -> Result<(String, Vec<Value>), (Strin
             "lextern" => crate::lift::lextern(ctx, &raw_rest, true),
             "ldeclare" => crate::lift::lextern(ctx, &raw_rest, false),
             "lstruct" => crate::lift::lstruct(ctx, &blk),
+            "lrecord" => crate::lift::lrecord(ctx, &blk),
             "lenum" => crate::lift::lenum(ctx, &blk),
             "item" => crate::extract::extract_item(ctx, &blk),
             "trait" => crate::extract::extract_trait(ctx, &blk),
